@@ -37,11 +37,18 @@ fn spread(n: usize, base: i64, p: u64) -> Vec<Vec<StreamElement<i64>>> {
 }
 
 fn scenario(job: Job, n: usize, p: u64, cap: usize, batch: BatchMode, bound: usize) -> Scenario {
-    let name = format!("C09/{:?}/n{n}/p{p}/cap{cap}/{:?}", job, batch).replace(' ', "");
-    let descr = format!("{:?} over {n} elements, parallelism {p}, channel capacity {}, batch mode {:?}", job, if cap == 0 { 16 } else { cap }, batch);
+    scenario_on(job, n, Layout::Local(p), cap, batch, bound)
+}
+
+fn scenario_on(job: Job, n: usize, layout: Layout, cap: usize, batch: BatchMode, bound: usize) -> Scenario {
+    let p = layout.total_cores();
+    let lname = if layout.hosts() == 1 { format!("p{p}") } else { layout.name() };
+    let name = format!("C09/{:?}/n{n}/{lname}/cap{cap}/{:?}", job, batch).replace(' ', "");
+    let descr = format!("{:?} over {n} elements, layout {}, channel capacity {}, batch mode {:?}", job, layout.name(), if cap == 0 { 16 } else { cap }, batch);
     let job2 = job.clone();
     let body: crate::rt::Body = Arc::new(move || {
-        let env = Layout::Local(p).env(0);
+      let job2 = job2.clone();
+      let res = crate::kit::run_hosts(&layout, Arc::new(move |host, env| {
         let par = |n: usize, base: i64| env.stream(ScriptSource::new(spread(n, base, p), Replication::Unlimited)).batch_mode(batch);
         let seq = |n: usize, base: i64| env.stream(ScriptSource::new(vec![items(n, base)], Replication::One)).batch_mode(batch);
         match &job2 {
@@ -50,7 +57,7 @@ fn scenario(job: Job, n: usize, p: u64, cap: usize, batch: BatchMode, bound: usi
                 let outs: Vec<_> = v.into_iter().map(|s| s.collect_vec()).collect();
                 env.execute_blocking();
                 for (i, o) in outs.into_iter().enumerate() {
-                    log_sink(["out0", "out1", "out2"][i], 0, o.get());
+                    log_sink(["out0", "out1", "out2"][i], host, o.get());
                 }
             }
             Job::Route(k) => {
@@ -61,13 +68,13 @@ fn scenario(job: Job, n: usize, p: u64, cap: usize, batch: BatchMode, bound: usi
                 let outs: Vec<_> = b.build().into_iter().map(|s| s.collect_vec()).collect();
                 env.execute_blocking();
                 for (i, o) in outs.into_iter().enumerate() {
-                    log_sink(["out0", "out1", "out2"][i], 0, o.get());
+                    log_sink(["out0", "out1", "out2"][i], host, o.get());
                 }
             }
             Job::MergeSources => {
                 let o = par(n, 0).merge(par(n / 2 + 1, 100)).collect_vec();
                 env.execute_blocking();
-                log_sink("out0", 0, o.get());
+                log_sink("out0", host, o.get());
             }
             Job::MergeDiamond { shuffle_one } => {
                 let mut v = par(n, 0).split(2);
@@ -79,7 +86,7 @@ fn scenario(job: Job, n: usize, p: u64, cap: usize, batch: BatchMode, bound: usi
                     a.merge(b).collect_vec()
                 };
                 env.execute_blocking();
-                log_sink("out0", 0, o.get());
+                log_sink("out0", host, o.get());
             }
             Job::Broadcast => {
                 probe(par(n, 0).broadcast(), 5).for_each(|_| {});
@@ -92,15 +99,26 @@ fn scenario(job: Job, n: usize, p: u64, cap: usize, batch: BatchMode, bound: usi
                     seq(*a, 0).zip(seq(*b, 100)).collect_vec()
                 };
                 env.execute_blocking();
-                log_sink("pairs", 0, o.get());
+                log_sink("pairs", host, o.get());
             }
         }
+      }));
+      for (h, r) in res.into_iter().enumerate() {
+          if let Some(p) = r {
+              crate::rt::log(Ev::Text("host-panic", format!("{h}: {p}")));
+          }
+      }
     });
     let d2 = descr.clone();
     let job3 = job.clone();
     let check: Check = Arc::new(move |r| {
         if r.status != Status::Done {
             return Err(Fail::new(format!("c09-{}-abnormal", tag(&job3)), format!("{d2}: {:?}", r.status)));
+        }
+        for e in &r.log {
+            if let Ev::Text("host-panic", t) = e {
+                return Err(Fail::new(format!("c09-{}-panic", tag(&job3)), format!("{d2}: {t}")));
+            }
         }
         let rows = |t: &str| -> Result<Vec<Vec<i64>>, Fail> {
             let (k, rows) = sink_rows(&r.log, t);
@@ -250,6 +268,20 @@ fn build(tier: Tier) -> Vec<Scenario> {
                     out.push(scenario(Job::Zip { a, b, parallel: true }, a.max(b), p, cap, batch, bound));
                 }
             }
+        }
+    }
+    // two hosts: split/route/merge/broadcast/zip across the (virtual) network
+    for layout in [Layout::Remote(vec![1, 1]), Layout::Remote(vec![2, 1])] {
+        if tier == Tier::Quick && layout.total_cores() == 3 {
+            continue;
+        }
+        let b = if tier == Tier::Quick { 0 } else { 1 };
+        for job in [Job::Split(2), Job::Route(3), Job::MergeSources, Job::MergeDiamond { shuffle_one: false }, Job::MergeDiamond { shuffle_one: true }, Job::Broadcast] {
+            out.push(scenario_on(job, 7, layout.clone(), 0, BatchMode::fixed(2), b));
+        }
+        for (a, bb) in [(3usize, 3usize), (3, 1), (0, 2)] {
+            out.push(scenario_on(Job::Zip { a, b: bb, parallel: false }, a.max(bb), layout.clone(), 0, BatchMode::fixed(2), b));
+            out.push(scenario_on(Job::Zip { a, b: bb, parallel: true }, a.max(bb), layout.clone(), 0, BatchMode::fixed(2), b));
         }
     }
     // zip of timestamped streams with watermarks, through the real two-input Start: every
